@@ -2,6 +2,7 @@ package main
 
 import (
 	"fmt"
+	"go/constant"
 	"go/token"
 	"go/types"
 	"strings"
@@ -295,4 +296,69 @@ func (c *Ctx) rawStorageGuarded() {
 		})
 	}
 	c.ok("raw-storage", 0, "%d data use(s) of Chunk.storage outside the Chunk type", n)
+}
+
+// flagDefaults: safety-relevant command line switches keep their documented default and stay
+// bound to the option field the checked code tests.  want: flag name -> {default, field}.
+type flagSpec struct {
+	def   string // "true" / "false"
+	field string // "Type.field" the flag variable is bound to
+	min   int    // number of registrations expected
+}
+
+func (c *Ctx) flagDefaults(want map[string]flagSpec) {
+	found := map[string]int{}
+	for _, fn := range c.Funcs {
+		if fn.Pkg != c.CmdSSA {
+			continue
+		}
+		instrs(fn, func(_ *ssa.BasicBlock, _ int, ins ssa.Instruction) {
+			call, ok := ins.(*ssa.Call)
+			if !ok {
+				return
+			}
+			name := callee(call)
+			if !strings.Contains(name, "pflag.FlagSet).Bool") {
+				return
+			}
+			a := call.Call.Args
+			var flagName, def string
+			var ptr ssa.Value
+			consts := []*ssa.Const{}
+			for _, x := range a[1:] {
+				if k, ok := x.(*ssa.Const); ok {
+					consts = append(consts, k)
+				} else if ptr == nil {
+					ptr = x
+				}
+			}
+			for _, k := range consts {
+				if k.Value == nil {
+					continue
+				}
+				if b, ok := k.Type().Underlying().(*types.Basic); ok && b.Info()&types.IsBoolean != 0 {
+					def = k.Value.ExactString()
+				} else if flagName == "" && b != nil && b.Info()&types.IsString != 0 {
+					flagName = constant.StringVal(k.Value)
+				}
+			}
+			spec, ok := want[flagName]
+			if !ok {
+				return
+			}
+			found[flagName]++
+			key := fmt.Sprintf("%s:--%s", fnKey(fn), flagName)
+			field := ""
+			if fa, ok := ptr.(*ssa.FieldAddr); ok {
+				field = fieldOf(fa)
+			}
+			c.verdict(def == spec.def && strings.HasSuffix(field, spec.field), key, call.Pos(), fmt.Sprintf("default %s, bound to %s", spec.def, spec.field),
+				fmt.Sprintf("flag --%s has default %q and is bound to %q; expected default %s bound to %s: the protection is off (or the switch has no effect) unless the user knows to ask for it", flagName, def, field, spec.def, spec.field))
+		})
+	}
+	for n, spec := range want {
+		if found[n] < spec.min {
+			c.bad("flag:--"+n, token.NoPos, "flag --%s is registered %d time(s), expected %d", n, found[n], spec.min)
+		}
+	}
 }
